@@ -14,7 +14,19 @@ def run(tier):
         asis=[("MC_Client_asis_F10.cfg", "Inv_IdsUnique", "overlapping id ranges of concurrent batches (F10)"),
               ("MC_Client_asis_F8.cfg", "Inv_NoPanic", "a reply with id u64::MAX overflows the range computation (F8)")],
         groups=["batch", "mixed"], nscen=n)
-    rep.cov["rule"] = ("design: Inv_Positional / Inv_IdsUnique over all interleavings of two batches and every reply array of <= 3 responses; "
+    # ---- spec -> implementation: every reply ClientBatch.tla enumerates, on the async client and on the HTTP client
+    from checks import g
+    rb = vlib.tlc("ClientBatch", "MC_ClientBatch.cfg", workers=2, timeout=300)
+    rep.add_tlc(rb, "every reply of length <= 4 over the ids S-1..S+n for one batch of n <= 3; the modelled outcome is acceptable under the property")
+    if len(rb["replay"]) < 1000 or not any(c["permutation"] for c in rb["replay"]):
+        raise vlib.ToolError("vacuity: batch reply enumeration incomplete")
+    g.replay_flow(rep, "c12", rb["replay"], timeout=1800, nontrivial=lambda c: not c["permutation"])
+    rep.cov["rule"] = ("replay: every reply array of <= 4 responses over {one id below, the batch's ids, one id above} for batches of 1..3 "
+                       "entries (1243 cases, numeric and string ids, every third element an error object) on the async client - outcome "
+                       "must equal the model's - and on the HTTP client (scripted tower service) - outcome must be acceptable under the "
+                       "property: a permutation succeeds positionally; otherwise the call fails or returns exactly n slots each holding its "
+                       "own id's answer or an error, with matching success / failure counts; "
+                       "design: Inv_Positional / Inv_IdsUnique over all interleavings of two batches and every reply array of <= 3 responses; "
                        "conformance (async client): seeded scenarios with batches of 3 and 2 entries plus single calls in flight, replies "
                        "permuted, with gaps, duplicates, foreign and u64::MAX ids, numeric and string id kinds; the returned BatchResponse "
                        "(tokens per slot, in order) must equal the spec's slots")
